@@ -8,3 +8,10 @@ package http
 // last - one that another configuration's denylist and overrides never touched (C11; seed C11f shared the method
 // builtins of modules/http, seed C09d the table of modules/math).
 //@ pkgcallpre[mod.fresh] C09,C11 NewBuiltinsModule: fresh(arg1) && forallA(k, string, haskey(arg1, k) ==> fresh(arg1[k]))
+
+// C09: net/http's process-wide objects are shared by every VM in the process (and with the host). The module reaches
+// the default mux through Handle / ListenAndServe (listeners: an explicit opt-in of the host, WithListenersAllowed) and
+// nothing else: in particular a request never uses http.DefaultClient or DefaultTransport, whose fields it would then
+// change for every other VM (seed C09h: requests without a client of their own fell back to http.DefaultClient and
+// wrote their timeout into it).
+//@ scan[C09.http.process.globals] C09 extcalls net/http.DefaultClient,net/http.DefaultTransport,net/http.DefaultServeMux,net/http.Handle,net/http.HandleFunc,net/http.ListenAndServe,net/http.Get,net/http.Post,net/http.Head,net/http.PostForm: Handle ListenAndServe ListenAndServeTLS
